@@ -86,6 +86,14 @@ class Report:
     def info(self, msg: str) -> None:
         self.infos.append(msg)
 
+    def adopt(self, other: "Report", rule: str) -> None:
+        """Take over the obligations of a sub-analysis (a rule shared with another property) under *rule*."""
+        for ob in other.obligations:
+            key = ob.key.split("|", 1)[1] if "|" in ob.key else ob.key
+            self.obligations.append(
+                Obligation(rule, ob.site, f"[{ob.rule}] {ob.text}", ob.status, ob.detail, f"{rule}|{key}" if ob.status == "violated" else "", ob.witness)
+            )
+
     # ------------------------------------------------------------------
     def finish(self) -> int:
         known = load_known()
